@@ -21,7 +21,6 @@ func SendAccountDebitRequest(
 	ue *chf_context.ChfUe,
 	ccr *charging_datatype.AccountDebitRequest,
 ) (*charging_datatype.AccountDebitResponse, error) {
-	ue.AbmfMux.Handle("CCA", HandleCCA(ue.AcctChan))
 	abmfDiameter := factory.ChfConfig.Configuration.AbmfDiameter
 	addr := abmfDiameter.HostIPv4 + ":" + strconv.Itoa(abmfDiameter.Port)
 	conn, err := ue.AbmfClient.DialNetworkTLS(abmfDiameter.Protocol, addr, abmfDiameter.Tls.Pem, abmfDiameter.Tls.Key)
@@ -29,6 +28,11 @@ func SendAccountDebitRequest(
 		return nil, err
 	}
 	defer conn.Close()
+
+	// The answer to this request arrives on this connection; anything else the handler sees
+	// (a late or repeated answer, an answer on an older connection) is not for us.
+	answer := make(chan *diam.Message, 1)
+	ue.AbmfMux.Handle("CCA", HandleCCA(conn, answer))
 
 	meta, ok := smpeer.FromContext(conn.Context())
 	if !ok {
@@ -52,7 +56,7 @@ func SendAccountDebitRequest(
 	}
 
 	select {
-	case m := <-ue.AcctChan:
+	case m := <-answer:
 		var cca charging_datatype.AccountDebitResponse
 		if errMarshal := m.Unmarshal(&cca); err != nil {
 			return nil, fmt.Errorf("Failed to parse message from %v", errMarshal)
@@ -64,10 +68,20 @@ func SendAccountDebitRequest(
 	}
 }
 
-func HandleCCA(abmfChan chan *diam.Message) diam.HandlerFunc {
+// HandleCCA hands the first answer received on conn to abmfChan (which must be buffered) and never
+// blocks: the handler runs under the read lock of the state machine's mux.
+func HandleCCA(conn diam.Conn, abmfChan chan *diam.Message) diam.HandlerFunc {
 	return func(c diam.Conn, m *diam.Message) {
 		logger.AcctLog.Tracef("Received CCA from %s", c.RemoteAddr())
 
-		abmfChan <- m
+		if c != conn {
+			logger.AcctLog.Warnf("Discard CCA received on a connection no request is waiting on")
+			return
+		}
+		select {
+		case abmfChan <- m:
+		default:
+			logger.AcctLog.Warnf("Discard CCA: the request already has its answer")
+		}
 	}
 }
